@@ -83,6 +83,11 @@ pub fn subselects() -> Vec<Select> {
     s.order_by = vec![("o".into(), false), ("z".into(), true)];
     s.limit = Some(2);
     out.push(s);
+    // S10 GROUP BY without any aggregate (one row per group; appended last so that the indexes
+    // used by `core_elements` stay what they were)
+    let mut s = Select::simple(&["s"], g(vec![t1(1)]));
+    s.group_by = vec!["s".into()];
+    out.push(s);
     out
 }
 
@@ -229,7 +234,10 @@ fn sequences(elems: &[Elem], n: usize) -> Vec<Group> {
     out
 }
 
-fn filters_for(group: &Group) -> Vec<Expr> {
+/// Filters for a base group: `.0` are written at every position of the group, `.1` (the
+/// round-3 additions: constant on the LEFT of a simple comparison, the remaining order operators)
+/// only after the last element, to bound the query count.
+fn filters_for(group: &Group) -> (Vec<Expr>, Vec<Expr>) {
     let certain = group.certain_vars();
     let mut kinds = BTreeMap::new();
     group.var_kinds(Q, &mut kinds);
@@ -265,6 +273,43 @@ fn filters_for(group: &Group) -> Vec<Expr> {
         }
     }
     simple.truncate(7);
+    // round 3: the same simple comparisons with the constant written on the left (mirrored
+    // operator, same truth value), the order operators not used above, and compositions
+    let mut end_only: Vec<Expr> = Vec::new();
+    for f in simple.iter() {
+        if let Expr::Cmp(a @ T::Var(_), op, b) = f {
+            if !b.is_var() {
+                end_only.push(Expr::Cmp(b.clone(), op.mirror(), a.clone()));
+            }
+        }
+    }
+    end_only.truncate(5);
+    if let Some(m) = end_only.first().cloned() {
+        end_only.push(Expr::Not(Box::new(m.clone())));
+        if let Some(f) = simple.get(1) {
+            end_only.push(Expr::And(Box::new(m.clone()), Box::new(f.clone())));
+            end_only.push(Expr::Or(Box::new(f.clone()), Box::new(m)));
+        }
+    }
+    for x in &cv {
+        if kinds.get(*x) == Some(&VarKind::Num) {
+            end_only.push(Expr::Cmp(v(x), Cmp::Gt, T::Num("1".into())));
+            end_only.push(Expr::Cmp(v(x), Cmp::Le, T::Num("1".into())));
+            end_only.push(Expr::Cmp(T::Num("1".into()), Cmp::Lt, v(x)));
+            end_only.push(Expr::Cmp(l("2"), Cmp::Ne, v(x)));
+            break;
+        }
+    }
+    'pairs: for (a, x) in cv.iter().enumerate() {
+        for y in cv.iter().skip(a + 1) {
+            if kinds.get(*x) == Some(&VarKind::Num) && kinds.get(*y) == Some(&VarKind::Num) {
+                end_only.push(Expr::Cmp(v(x), Cmp::Le, v(y)));
+                end_only.push(Expr::Cmp(v(x), Cmp::Gt, v(y)));
+                end_only.push(Expr::Cmp(v(x), Cmp::Ge, v(y)));
+                break 'pairs;
+            }
+        }
+    }
     // arithmetic comparisons over certainly bound numeric variables (precedence, every operator)
     let nums: Vec<&&String> = cv.iter().filter(|x| kinds.get(**x) == Some(&VarKind::Num)).collect();
     let mut arith: Vec<Expr> = Vec::new();
@@ -299,7 +344,7 @@ fn filters_for(group: &Group) -> Vec<Expr> {
         out.push(Expr::Not(Box::new(a.clone())));
     }
     out.extend(arith);
-    out
+    (out, end_only)
 }
 
 fn values_menu() -> Vec<Elem> {
@@ -324,13 +369,16 @@ fn decorate(bases: &[Group], out: &mut Vec<Select>) {
     for base in bases {
         let n = base.0.len();
         // filters at every position
-        for f in filters_for(base) {
+        let (fs, fs_end) = filters_for(base);
+        for f in &fs {
             for pos in 0..=n {
                 out.push(all_vars_select(insert_at(base, pos, Elem::Filter(f.clone()))));
             }
         }
+        for f in &fs_end {
+            out.push(all_vars_select(insert_at(base, n, Elem::Filter(f.clone()))));
+        }
         // two filters in one group (both deferred to the end)
-        let fs = filters_for(base);
         if fs.len() >= 2 {
             let gq = insert_at(&insert_at(base, 0, Elem::Filter(fs[0].clone())), n + 1, Elem::Filter(fs[1].clone()));
             out.push(all_vars_select(gq));
@@ -489,6 +537,39 @@ fn modifiers(bases: &[Group], out: &mut Vec<Select>) {
                 out.push(s);
             }
         }
+        // round 3: GROUP BY without any aggregate (one row per distinct key; the top-level
+        // finalisation only aggregates when an aggregate is projected, the sub-select path always)
+        for key in iris.iter().take(2).chain(nums.iter().take(1)) {
+            let mut s = Select::simple(&[key.as_str()], base.clone());
+            s.group_by = vec![(*key).clone()];
+            out.push(s.clone());
+            let mut d = s.clone();
+            d.distinct = true;
+            out.push(d);
+            let mut o = s.clone();
+            o.order_by = vec![((*key).clone(), true)];
+            out.push(o.clone());
+            o.limit = Some(1);
+            out.push(o);
+            let mut lim = s.clone();
+            lim.limit = Some(1);
+            out.push(lim);
+            // the same as a sub-select joined with the base group
+            let sub = Elem::Sub(Box::new(s.clone()));
+            out.push(all_vars_select(Group(vec![sub.clone()])));
+            let mut joined = base.0.clone();
+            joined.push(sub);
+            out.push(all_vars_select(Group(joined)));
+        }
+        if iris.len() >= 2 {
+            let mut s = Select::simple(&[iris[0].as_str(), iris[1].as_str()], base.clone());
+            s.group_by = vec![iris[0].clone(), iris[1].clone()];
+            out.push(s.clone());
+            // projecting a subset of the keys keeps one row per (k0, k1) group
+            let mut s1 = Select::simple(&[iris[1].as_str()], base.clone());
+            s1.group_by = vec![iris[0].clone(), iris[1].clone()];
+            out.push(s1);
+        }
     }
 }
 
@@ -504,6 +585,209 @@ fn dataset_clauses(bases: &[Group], out: &mut Vec<Select>) {
             out.push(s);
         }
     }
+}
+
+// ---------------------------------------------------------------------------------------
+// Round-3 families (audit A): shapes that cross engine branches the grammar above never reached
+// ---------------------------------------------------------------------------------------
+
+fn tpq(s: &str, o: &str) -> TP {
+    tp(v(s), i(Q), v(o))
+}
+
+/// BIND inside an inner group (nested braces, UNION branch, GRAPH) whose target variable is ALSO
+/// bound by a sibling element of the outer group. In the algebra the inner group is evaluated on
+/// its own (Extend over the inner solutions) and then joined: solutions whose BIND value differs
+/// from the sibling's value are incompatible and disappear. An engine that feeds the outer rows
+/// into the inner plan and lets BIND assign its target would overwrite instead of join.
+/// The BIND expression only mentions variables of its own group (the property's quantifier).
+pub fn bind_scope_bases() -> Vec<Group> {
+    // inner groups
+    let nb_k = Elem::Nested(g(vec![Elem::Triples(vec![tpq("s", "v")]), Elem::Bind(vec![v("v"), l("k")], "n".into())]));
+    let nb_id = Elem::Nested(g(vec![Elem::Triples(vec![tpq("s", "v")]), Elem::Bind(vec![v("v"), l("")], "n".into())]));
+    let nb_x = Elem::Nested(g(vec![Elem::Triples(vec![tpq("x", "v")]), Elem::Bind(vec![v("v"), l("k")], "n".into())]));
+    let nb_w = Elem::Nested(g(vec![Elem::Triples(vec![tpq("s", "w")]), Elem::Bind(vec![v("w"), l("k")], "n".into())]));
+    let ub = Elem::Union(vec![g(vec![Elem::Triples(vec![tpq("s", "n")])]), g(vec![Elem::Triples(vec![tpq("s", "w")]), Elem::Bind(vec![v("w"), l("")], "n".into())])]);
+    let gb_var = Elem::Graph(v("g"), g(vec![Elem::Triples(vec![tpq("s", "v")]), Elem::Bind(vec![v("v"), l("k")], "n".into())]));
+    let gb_iri = Elem::Graph(i(G1), g(vec![Elem::Triples(vec![tpq("s", "v")]), Elem::Bind(vec![v("v"), l("")], "n".into())]));
+    // sibling elements that bind ?n
+    let on_q = Elem::Triples(vec![tpq("s", "n")]);
+    let on_vals = Elem::Values(vec!["n".into()], vec![vec![Some(l("1k"))], vec![Some(l("2k"))], vec![Some(l("3k"))]]);
+    let on_vals2 = Elem::Values(vec!["s".into(), "n".into()], vec![vec![Some(i(A)), Some(l("1k"))], vec![None, Some(l("2k"))], vec![Some(i(B)), None]]);
+    let on_num = Elem::Values(vec!["n".into()], vec![vec![Some(l("1"))], vec![Some(l("7"))]]);
+    let on_sub = Elem::Sub(Box::new(Select::simple(&["n"], g(vec![Elem::Triples(vec![tpq("y", "n")])]))));
+    let mut out = Vec::new();
+    let pairs: Vec<(Elem, Elem)> = vec![
+        (on_vals.clone(), nb_k.clone()),
+        (on_vals2.clone(), nb_k.clone()),
+        (on_vals.clone(), nb_x.clone()),
+        (on_q.clone(), nb_id.clone()),
+        (on_num.clone(), nb_id.clone()),
+        (on_sub.clone(), nb_id.clone()),
+        (on_q.clone(), ub.clone()),
+        (on_num.clone(), ub.clone()),
+        (on_vals.clone(), gb_var.clone()),
+        (on_vals2.clone(), gb_var.clone()),
+        (on_q.clone(), gb_iri.clone()),
+        (on_num.clone(), gb_iri.clone()),
+        // two inner groups binding the same target
+        (nb_k.clone(), nb_w.clone()),
+        (nb_k.clone(), gb_var.clone()),
+    ];
+    for (a, b) in pairs {
+        out.push(Group(vec![a.clone(), b.clone()]));
+        out.push(Group(vec![b.clone(), a.clone()]));
+        // a third element that joins on ?s (keeps the clash below a join node)
+        out.push(Group(vec![a.clone(), b.clone(), t1(0)]));
+        out.push(Group(vec![t1(0), a, b]));
+    }
+    // the inner groups on their own and next to an unrelated element (no clash: sanity)
+    for e in [nb_k, nb_id, nb_x, ub, gb_var, gb_iri] {
+        out.push(Group(vec![e.clone()]));
+        out.push(Group(vec![t1(0), e.clone()]));
+        out.push(Group(vec![e, t1(6)]));
+    }
+    out
+}
+
+/// A braced group that contains ONLY a BIND over constants, next to an element binding the same
+/// variable: `{ ?s q ?v . { BIND(CONCAT("1","") AS ?v) } }` = Join(BGP, Extend(unit, v, "1")).
+/// Kept apart from the shared list because C16's tree comparison (correctly) distinguishes
+/// `{ BIND }` from an inline BIND, which the parser does not.
+pub fn lone_bind_bases() -> Vec<Group> {
+    let lone = |args: Vec<T>, out: &str| Elem::Nested(g(vec![Elem::Bind(args, out.into())]));
+    let mut out = Vec::new();
+    for (args, var, sib) in [
+        (vec![l("1"), l("")], "v", t1(1)),
+        (vec![l("2"), l("")], "v", t1(1)),
+        (vec![l("1"), l("k")], "n", Elem::Values(vec!["n".into()], vec![vec![Some(l("1k"))], vec![Some(l("2k"))]])),
+        (vec![l("9"), l("")], "v", t1(1)),
+    ] {
+        out.push(Group(vec![sib.clone(), lone(args.clone(), var)]));
+        out.push(Group(vec![lone(args.clone(), var), sib.clone()]));
+        out.push(Group(vec![t1(0), sib, lone(args, var)]));
+    }
+    out.push(Group(vec![lone(vec![l("a"), l("b")], "n")]));
+    out.push(Group(vec![t1(0), lone(vec![l("a"), l("b")], "n")]));
+    out
+}
+
+/// Subject stars (>= 3 default-scope patterns sharing the subject variable: the optimizer's
+/// StarJoin rewrite fires syntactically, whatever the statistics) under FILTER (Selection over a
+/// star = Filter(StarJoin)), under FROM (merged default graphs inside the star executor), split
+/// over two triples blocks, and two stars in one group.
+pub fn star_bases() -> Vec<Group> {
+    let spo = tp(v("s"), i(P), v("o"));
+    let spz = tp(v("s"), i(P), v("z"));
+    let svy = tp(v("s"), v("pp"), v("y"));
+    vec![
+        g(vec![tn(&[0, 1, 11])]),
+        g(vec![tn(&[0, 1]), t1(11)]),
+        // a star that is non-empty on merged FROM graphs (no q triples needed)
+        g(vec![Elem::Triples(vec![spo.clone(), spz.clone(), svy.clone()])]),
+        // two stars: on ?s and on ?o
+        g(vec![Elem::Triples(vec![spo.clone(), tpq("s", "v"), tpq("s", "w"), tp(v("o"), i(P), v("z")), tpq("o", "y"), tpq("o", "u")])]),
+        // star + one leftover pattern joined through the object
+        g(vec![Elem::Triples(vec![spo, tpq("s", "v"), tpq("s", "w"), tpq("o", "y")])]),
+    ]
+}
+
+/// Labelled family "errors under NOT / in BIND" - justified by the algebra's error semantics
+/// (SPARQL 1.1 §17.2: an unbound variable or a failing operator raises an error; `!` of an error is
+/// an error; FILTER drops the solution; Extend leaves the target unbound). Every expression only
+/// mentions variables IN SCOPE of its own group (the property's quantifier) - but not certainly
+/// bound ones, which is what the main enumeration restricts itself to.
+pub fn error_semantics_queries() -> Vec<Select> {
+    let u_vs = Elem::Union(vec![g(vec![t1(1)]), g(vec![t1(0)])]); // ?s certain, ?v / ?o possibly unbound
+    let mut out = Vec::new();
+    let not = |e: Expr| Expr::Not(Box::new(e));
+    let filters = vec![
+        not(Expr::Cmp(v("v"), Cmp::Lt, T::Num("2".into()))),
+        not(Expr::Cmp(v("v"), Cmp::Eq, l("1"))),
+        not(Expr::Cmp(v("o"), Cmp::Eq, i(B))),
+        not(Expr::Cmp(v("v"), Cmp::Ne, l("1"))),
+        Expr::Or(Box::new(not(Expr::Cmp(v("v"), Cmp::Eq, l("1")))), Box::new(Expr::Cmp(v("s"), Cmp::Eq, i(A)))),
+        Expr::And(Box::new(not(Expr::Cmp(v("o"), Cmp::Eq, i(B)))), Box::new(Expr::Cmp(v("s"), Cmp::Ne, i(C)))),
+    ];
+    for f in &filters {
+        for pos in [0usize, 1] {
+            out.push(all_vars_select(insert_at(&g(vec![u_vs.clone()]), pos, Elem::Filter(f.clone()))));
+        }
+        out.push(all_vars_select(g(vec![u_vs.clone(), t1(2), Elem::Filter(f.clone())])));
+    }
+    // division by zero under NOT, over a certainly bound numeric variable (?v = 1 divides by zero)
+    let op = |t: T| Box::new(Arith::Operand(t));
+    let n = |k: &str| T::Num(k.to_string());
+    let div = Expr::ArithCmp(Arith::Div(op(n("6")), Box::new(Arith::Sub(op(v("v")), op(n("1"))))), Cmp::Gt, Arith::Operand(n("1")));
+    out.push(all_vars_select(g(vec![t1(1), Elem::Filter(div.clone())])));
+    out.push(all_vars_select(g(vec![t1(1), Elem::Filter(not(div.clone()))])));
+    out.push(all_vars_select(g(vec![Elem::Filter(not(div.clone())), t1(0), t1(1)])));
+    out.push(all_vars_select(g(vec![t1(1), Elem::Filter(Expr::Or(Box::new(not(div)), Box::new(Expr::Cmp(v("s"), Cmp::Eq, i(A)))))])));
+    // BIND whose argument is in scope but unbound in some solutions: the target stays unbound there
+    for args in [vec![v("v"), l("k")], vec![l("k"), v("v")], vec![v("o"), v("v")], vec![v("s"), v("v")]] {
+        out.push(all_vars_select(g(vec![u_vs.clone(), Elem::Bind(args.clone(), "n".into())])));
+        out.push(all_vars_select(g(vec![u_vs.clone(), Elem::Bind(args.clone(), "n".into()), t1(2)])));
+        let mut d = all_vars_select(g(vec![u_vs.clone(), Elem::Bind(args, "n".into())]));
+        d.proj = Proj::Items(vec![ProjItem::Var("n".into())]);
+        d.distinct = true;
+        out.push(d);
+    }
+    out
+}
+
+/// The group with the target of every BIND that sits in an inner group (nested braces, UNION
+/// branch, GRAPH) renamed to a fresh variable: used only for a vacuity counter ("does the join on
+/// the BIND target discard solutions?").
+pub fn rename_inner_bind_targets(group: &Group) -> Group {
+    fn rec(group: &Group, depth: usize) -> Group {
+        Group(
+            group
+                .0
+                .iter()
+                .map(|e| match e {
+                    Elem::Bind(args, out) if depth > 0 => Elem::Bind(args.clone(), format!("{}_r", out)),
+                    Elem::Nested(inner) => Elem::Nested(rec(inner, depth + 1)),
+                    Elem::Graph(t, inner) => Elem::Graph(t.clone(), rec(inner, depth + 1)),
+                    Elem::Union(bs) => Elem::Union(bs.iter().map(|b| rec(b, depth + 1)).collect()),
+                    other => other.clone(),
+                })
+                .collect(),
+        )
+    }
+    rec(group, 0)
+}
+
+/// The group without any FILTER (vacuity counters: "does the filter remove solutions?").
+pub fn strip_filters(group: &Group) -> Group {
+    Group(
+        group
+            .0
+            .iter()
+            .filter(|e| !matches!(e, Elem::Filter(_)))
+            .map(|e| match e {
+                Elem::Nested(inner) => Elem::Nested(strip_filters(inner)),
+                Elem::Graph(t, inner) => Elem::Graph(t.clone(), strip_filters(inner)),
+                Elem::Union(bs) => Elem::Union(bs.iter().map(strip_filters).collect()),
+                other => other.clone(),
+            })
+            .collect(),
+    )
+}
+
+/// Queries of the round-3 families that only C01 runs (see `lone_bind_bases`,
+/// `error_semantics_queries`): not part of `queries()`, which C16/C17 also consume.
+pub fn c01_only(scope: Scope) -> Vec<Select> {
+    let mut out: Vec<Select> = Vec::new();
+    if scope == Scope::Tiny {
+        return out;
+    }
+    let mut seen = BTreeSet::new();
+    for s in lone_bind_bases().into_iter().map(all_vars_select).chain(error_semantics_queries()) {
+        if seen.insert(print_select(&s, Layout::Canonical)) {
+            out.push(s);
+        }
+    }
+    out
 }
 
 #[derive(Clone, Copy, PartialEq, Eq, Debug)]
@@ -542,6 +826,10 @@ pub fn queries(scope: Scope) -> Vec<Select> {
             decorate(&small, &mut dec);
             modifiers(&small, &mut dec);
             push_all(dec, &mut out, &mut seen);
+            // round 3: one of each new shared shape
+            let mut r3: Vec<Select> = bind_scope_bases().into_iter().step_by(23).map(all_vars_select).collect();
+            r3.extend(star_bases().into_iter().skip(2).take(2).map(all_vars_select));
+            push_all(r3, &mut out, &mut seen);
         }
         Scope::Quick | Scope::Thorough => {
             // all base groups of <= 2 elements over the wide element list
@@ -577,6 +865,25 @@ pub fn queries(scope: Scope) -> Vec<Select> {
             }
             dataset_clauses(&dc_bases, &mut m);
             push_all(m, &mut out, &mut seen);
+            // round-3 families (appended last: the indexes of the earlier queries do not move)
+            let mut r3: Vec<Select> = bind_scope_bases().into_iter().map(all_vars_select).collect();
+            let sb = star_bases();
+            r3.extend(sb.iter().cloned().map(all_vars_select));
+            decorate(&sb, &mut r3);
+            dataset_clauses(&sb, &mut r3);
+            modifiers(&sb[..3], &mut r3);
+            // FILTER over a star under FROM (merged default graphs below Filter(StarJoin))
+            for base in &sb {
+                let (fs, fs_end) = filters_for(base);
+                for f in fs.iter().take(4).chain(fs_end.iter().take(2)) {
+                    for from in [vec![G1, G2], vec![G2, G1, G2]] {
+                        let mut s = all_vars_select(insert_at(base, base.0.len(), Elem::Filter(f.clone())));
+                        s.from = from.iter().map(|x| x.to_string()).collect();
+                        r3.push(s);
+                    }
+                }
+            }
+            push_all(r3, &mut out, &mut seen);
         }
     }
     out
